@@ -12,7 +12,7 @@
      add_change_balances           add_change = Ok -> balanced                                    (C05_change_balances)
      select_and_change_balances    add_inputs_from_and_change = Ok -> balanced                    (C05_select_and_change)
      build_tx_balanced             build_tx = Ok body -> ledger_balanced body                     (C05_balance)  *)
-From CSL Require Import Base.Prelude Base.U64 Num.Value Num.ValueProofs Deposits.Deposits Deposits.DepositsProofs
+From CSL Require Import Base.Prelude Base.U64 Num.Value Num.ValueProofs Num.ValueNorm Num.ValueNormProofs Deposits.Deposits Deposits.DepositsProofs
   Builder.Totals Builder.TotalsProofs Builder.Change.
 Local Open Scope N_scope.
 
@@ -261,13 +261,19 @@ Section Proofs.
       + apply hoare_ret'. auto.
   Qed.
 
+  Lemma output_acceptable_spec P x : hoare WF P (output_acceptable orc x) (fun _ s => P s).
+  Proof.
+    unfold output_acceptable. destruct (value_has_empty_entries (o_amount x)); [apply hoare_fail; discriminate|].
+    apply output_admissible_spec.
+  Qed.
+
   (* fee_for_output leaves the builder untouched; under an Exactly request the increment is 0 *)
   Lemma fee_for_output_spec P x :
     hoare WF P (fee_for_output orc x)
       (fun v s => P s /\ v < two64 /\ (forall e, s_fee_request s = FeeExactly e -> v = 0)).
   Proof.
     unfold fee_for_output. apply hoare_get_bind. intros s0. apply hoare_askF_bind. intros fb Lb.
-    eapply hoare_bind; [apply output_admissible_spec|]. intros u.
+    eapply hoare_bind; [apply output_acceptable_spec|]. intros u.
     apply hoare_askF_bind. intros fa La. cbn beta.
     intros s o Js [E Ps]. subst s. cbn. split; [exact Js|].
     unfold checked_sub.
@@ -287,7 +293,7 @@ Section Proofs.
     (forall s, WF s -> P s -> Q tt (set_s_outputs (s_outputs s ++ [x]) s)) ->
     hoare WF P (add_output orc x) Q.
   Proof.
-    intros Wx H. unfold add_output. eapply hoare_bind; [apply output_admissible_spec|]. intros u.
+    intros Wx H. unfold add_output. eapply hoare_bind; [apply output_acceptable_spec|]. intros u.
     intros s o Js Ps. cbn. split; [apply WF_add_output; assumption | apply H; assumption].
   Qed.
 
@@ -799,14 +805,14 @@ Section Proofs.
   Qed.
 
   Lemma WF_add_inputs l s : WF s -> utxos_wf l ->
-    WF (set_s_inputs (fold_left (fun m e => inputs_insert (fst e) (snd e) m) l (s_inputs s)) s).
+    WF (set_s_inputs (fold_left (fun m e => inputs_insert (fst e) (value_without_empty_entries (snd e)) m) l (s_inputs s)) s).
   Proof.
     intros [W C] Wl. split; [|exact C].
     unfold state_wf, state_wfb in *. cbn [s_inputs s_outputs s_mint set_s_inputs].
     apply andb_true_iff in W. destruct W as [W Wm]. apply andb_true_iff in W. destruct W as [Wi Wo].
     rewrite Wo, Wm, !andb_true_r.
     revert Wi. generalize (s_inputs s). induction Wl as [|e l We Wl IH]; intros m Wi; [exact Wi|].
-    cbn [fold_left]. apply IH. apply inputs_insert_forall; assumption.
+    cbn [fold_left]. apply IH. apply inputs_insert_forall; [apply value_without_empty_entries_wf; exact We | exact Wi].
   Qed.
 
   Lemma add_inputs_spec P l : utxos_wf l -> hoare WF P (add_inputs l) (fun _ _ => True).
